@@ -34,7 +34,7 @@ Section ListLaw.
 
   Definition offered (o : op) : list Z :=
     match o with
-    | SetInt _ v | Append v | Insert _ v => [v]
+    | SetInt _ v | Append v | Insert _ v | InsertX _ v => [v]
     | SetSlice _ vs | Extend vs | Iadd vs => vs
     | _ => []
     end.
